@@ -248,9 +248,11 @@ static int no_nest;     /* comparison sets are kept class-homogeneous element-wi
 
 static spif_obj_t make_str(void)
 {
-    int v = (int) vh_below(8);
+    int v = (int) vh_below(10);
     spif_str_t s;
     switch (v) {
+    case 8: { s = spif_str_new_from_ptr((spif_charptr_t) rword()); vh_op("str_new_from_ptr, then spliced empty (len 0, buffer kept)"); spif_str_splice_from_ptr(s, 0, spif_str_get_len(s), (spif_charptr_t) NULL); break; }
+    case 9: { const char *w = rword(); s = spif_str_new_from_buff((spif_charptr_t) w, (spif_stridx_t) strlen(w) + (spif_stridx_t) vh_range(20, 80)); vh_op("str_new_from_buff(%s,+big) -- spare capacity", vh_qs(w)); break; }
     case 0: s = spif_str_new(); vh_op("str_new()"); break;                                /* empty, never filled */
     case 1: s = spif_str_new_from_ptr((spif_charptr_t) ""); vh_op("str_new_from_ptr(\"\")"); break;
     case 2: { const char *w = rword(); s = spif_str_new_from_buff((spif_charptr_t) w, (spif_stridx_t) strlen(w) + (spif_stridx_t) vh_below(6) + 1); vh_op("str_new_from_buff(%s,+)", vh_qs(w)); break; }
@@ -263,9 +265,11 @@ static spif_obj_t make_str(void)
 }
 static spif_obj_t make_ustr(void)
 {
-    int v = (int) vh_below(6);
+    int v = (int) vh_below(8);
     spif_ustr_t s;
     switch (v) {
+    case 6: { const char *w = rword(); s = spif_ustr_new_from_buff((spif_charptr_t) w, (spif_ustridx_t) strlen(w) + (spif_ustridx_t) vh_below(40) + 1); vh_op("ustr_new_from_buff(%s,+) -- spare capacity", vh_qs(w)); break; }
+    case 7: { s = spif_ustr_new_from_ptr((spif_charptr_t) rword()); vh_op("ustr_new_from_ptr, then spliced empty (len 0, buffer kept)"); spif_ustr_splice_from_ptr(s, 0, spif_ustr_get_len(s), (spif_charptr_t) NULL); break; }
     case 0: s = spif_ustr_new(); vh_op("ustr_new()"); break;
     case 1: s = spif_ustr_new_from_ptr((spif_charptr_t) ""); vh_op("ustr_new_from_ptr(\"\")"); break;
     case 2: { s = spif_ustr_new_from_ptr((spif_charptr_t) rword()); const char *w = rword(); vh_op("ustr_new_from_ptr+append(%s)", vh_qs(w)); spif_ustr_append_from_ptr(s, (spif_charptr_t) w); break; }
@@ -276,10 +280,13 @@ static spif_obj_t make_ustr(void)
 }
 static spif_obj_t make_mbuff(void)
 {
-    int v = (int) vh_below(6);
+    int v = (int) vh_below(9);
     spif_mbuff_t m;
     static const unsigned char B[] = "ab\0cd\0\0ef\xff\x01gh";
     switch (v) {
+    case 6: { long n = vh_range(1, 14); m = spif_mbuff_new_from_ptr((spif_byteptr_t) B, (spif_memidx_t) n); vh_op("mbuff_new_from_ptr(B,%ld), then spliced empty (len 0, buffer kept)", n); spif_mbuff_splice_from_ptr(m, 0, (spif_memidx_t) n, (spif_byteptr_t) NULL, 0); break; }
+    case 7: { long n = vh_range(1, 8); m = spif_mbuff_new_from_buff((spif_byteptr_t) B, (spif_memidx_t) n, (spif_memidx_t) (n + vh_range(1, 60))); vh_op("mbuff_new_from_buff(B,%ld,+) -- spare capacity", n); break; }
+    case 8: { m = spif_mbuff_new_from_buff((spif_byteptr_t) NULL, 0, (spif_memidx_t) vh_range(1, 40)); vh_op("mbuff_new_from_buff(NULL,0,n) -- capacity only"); break; }
     case 0: m = spif_mbuff_new(); vh_op("mbuff_new()"); break;
     case 1: { long n = vh_range(1, 14); m = spif_mbuff_new_from_ptr((spif_byteptr_t) B, (spif_memidx_t) n); vh_op("mbuff_new_from_ptr(B,%ld)", n); break; }
     case 2: { long n = vh_range(1, 6); m = spif_mbuff_new_from_ptr((spif_byteptr_t) B, (spif_memidx_t) n); long k2 = vh_range(1, 8); vh_op("mbuff_new_from_ptr(B,%ld)+append(B+3,%ld)", n, k2); spif_mbuff_append_from_ptr(m, (spif_byteptr_t) B + 3, (spif_memidx_t) k2); break; }
@@ -600,6 +607,11 @@ static void scenario_comp(int k)
     for (int i = 1; i < N; i++) {
         if (far) { v[i] = make_far(k, i); if (!v[i]) { far = 0; v[i] = make(k, 0); } }
         else if (i >= 2 && vh_coin(30)) { v[i] = SPIF_OBJ_DUP(v[1 + vh_below((uint64_t) i - 1)]); if (!v[i]) v[i] = make(k, 0); vh_op("v[%d] = dup of an earlier one", i); }   /* equal value, different address */
+        else if (i >= 2 && vh_coin(35)) {      /* a near relative: copy of an earlier one with one mutation (shared prefix, different tail or length) */
+            v[i] = SPIF_OBJ_DUP(v[1 + vh_below((uint64_t) i - 1)]);
+            if (!v[i]) v[i] = make(k, 0); else { vh_op("v[%d] = dup of an earlier one, then mutated", i); mutate(v[i], 0); }
+            vh_count("comp_near_relatives", 1);
+        }
         else v[i] = make(k, 0);
         if (!v[i]) { vh_count("factory_returned_null", 1); v[i] = make(k, 0); }
     }
@@ -632,6 +644,24 @@ static void scenario_comp(int k)
                 }
             }
         }
+    }
+    /* comp(a,b) == EQUAL only for operands whose compared content is equal: text for str/ustr, bytes for mbuff, and for the
+     * array-backed containers (whose order is element-wise) same length and pairwise EQUAL elements / matching placeholders */
+    for (int i = 1; i < N; i++) for (int j = 1; j < N; j++) {
+        if (i == j || c[i][j] != SPIF_CMP_EQUAL || far) continue;
+        int same = 1;
+        if (k == K_STR || k == K_USTR || k == K_MBUFF) same = !strcmp(ov[i], ov[j]);
+        else if (IS_CONT(k) && IMPL(k) == 0) {
+            spif_array_t a = (spif_array_t) v[i], b = (spif_array_t) v[j];
+            if (a->len != b->len) same = 0;
+            for (long e = 0; same && e < a->len; e++) {
+                if (!a->items[e] || !b->items[e]) same = (!a->items[e] && !b->items[e]);
+                else same = (SPIF_OBJ_COMP(a->items[e], b->items[e]) == SPIF_CMP_EQUAL);
+            }
+        } else continue;
+        snprintf(key, sizeof key, "comp:%s:equal-but-different", KNAME[k]);
+        VH_CHECK(same, key, "comp(a,b) = EQUAL for operands that differ: a = %.300s ; b = %.300s", ov[i], ov[j]);
+        vh_count("comp_equal_pairs_checked", 1);
     }
     /* equal-prefix buffers of different length are not equal */
     if (k == K_STR || k == K_USTR || k == K_MBUFF) {
